@@ -108,7 +108,7 @@ func c07H2Script(s *verifh.Session, sid uint32) ([]byte, []string) {
 			body = c07Gzip(body)
 		case 1:
 			g := c07Gzip(body)
-			body = g[:r.Intn(len(g))]
+			body = g[:c07Intn(r, len(g))]
 		}
 	}
 	switch r.Intn(4) {
@@ -244,7 +244,7 @@ func c07H2Script(s *verifh.Session, sid uint32) ([]byte, []string) {
 	if endStream == 0 {
 		rest := body
 		for len(rest) > 0 {
-			n := 1 + r.Intn(len(rest))
+			n := 1 + c07Intn(r, len(rest))
 			if n > 16384 {
 				n = 16384
 			}
@@ -283,12 +283,12 @@ func c07H2Script(s *verifh.Session, sid uint32) ([]byte, []string) {
 	res := out.Bytes()
 	if r.Intn(6) == 0 && len(res) > 0 {
 		for k := 1 + r.Intn(3); k > 0; k-- {
-			res[r.Intn(len(res))] = byte(r.Intn(256))
+			res[c07Intn(r, len(res))] = byte(r.Intn(256))
 		}
 		tag("mutated")
 	}
 	if r.Intn(8) == 0 && len(res) > 0 {
-		res = res[:r.Intn(len(res))]
+		res = res[:c07Intn(r, len(res))]
 		tag("cut")
 	}
 	return res, tags
@@ -426,7 +426,9 @@ func TestVerif_C07_h2hostile(t *testing.T) {
 	opts := c07Options()
 	clients := make([]*Client, len(opts))
 	mk := func(i int) {
-		c := C().SetTimeout(10 * time.Second).EnableH2C().EnableForceHTTP2().SetLogger(nil)
+		// (a graceful GOAWAY is retried on a new connection with exponential back-off until the client
+		// timeout; 6 s keeps such cases affordable, the watchdog — the oracle — stays at 15 s per attempt)
+		c := C().SetTimeout(6 * time.Second).EnableH2C().EnableForceHTTP2().SetLogger(nil)
 		opts[i].setup(c)
 		clients[i] = c
 	}
@@ -437,8 +439,10 @@ func TestVerif_C07_h2hostile(t *testing.T) {
 	g0 := runtime.NumGoroutine()
 	n := verifh.N(500, 15000)
 	for i := 0; i < n; i++ {
-		script, tags := c07H2Script(s, 1)
-		oi := s.Rand().Intn(len(opts))
+		var script []byte
+		var tags []string
+		c07Gen(t, "h2hostile frame script", func() { script, tags = c07H2Script(s, 1) })
+		oi := c07Intn(s.Rand(), len(opts))
 		method := verifh.Pick(s.Rand(), []int{0, 0, 1, 2})
 		path := "/" + strconv.Itoa(i)
 		peer.set(path, c07Script{data: script})
@@ -496,10 +500,17 @@ func TestVerif_C07_h2hostile(t *testing.T) {
 			}
 		}
 		s.Begin(id, human)
+		t0 := time.Now()
 		close(start)
 		select {
 		case res := <-ch:
 			s.Count(res[0])
+			if d := time.Since(t0); d > 3*time.Second {
+				s.Count("slow>3s")
+				if os.Getenv("VERIF_DEBUG") != "" {
+					fmt.Fprintf(os.Stderr, "SLOW %v %s -> %s\n", d.Round(100*time.Millisecond), human, res[0])
+				}
+			}
 			for _, tg := range tags {
 				if !strings.HasPrefix(tg, "ce:") {
 					s.Count("tag:" + tg)
@@ -515,7 +526,7 @@ func TestVerif_C07_h2hostile(t *testing.T) {
 			}
 		case <-time.After(c07Watchdog(opts[oi].name)):
 			s.Count("wedged")
-			s.Observe(id, false, class, true, human, "call did not return within the watchdog bound (15 s per attempt) although the peer closed the connection and the client timeout is 10 s per attempt")
+			s.Observe(id, false, class, true, human, "call did not return within the watchdog bound (15 s per attempt) although the peer closed the connection and the client timeout is 6 s per attempt")
 			wedges++
 			mk(oi) // that client is stuck; continue with a fresh one
 		}
@@ -593,54 +604,74 @@ func TestVerif_C07_h2budget(t *testing.T) {
 		{"endless-data-beyond-content-length", append(append([]byte{}, settings...), clHead...), c07Frame{-1, 0, 0, 1, bytes.Repeat([]byte("d"), 1000)}.bytes(), 16 << 20, true},
 		{"endless-ping", settings, c07Frame{-1, 6, 0, 0, []byte("12345678")}.bytes(), -1, false},
 	}
+	// the five floods are independent (own client, own connection, own byte counter): run them side
+	// by side and record the verdicts afterwards
+	type bres struct {
+		kind string
+		got  int64
+	}
+	results := make([]bres, len(cases))
+	var wg sync.WaitGroup
 	for ci, bc := range cases {
-		var reads int64
-		c := C().SetTimeout(8 * time.Second).EnableH2C().EnableForceHTTP2().SetLogger(nil).SetHTTP2MaxHeaderListSize(hl)
-		c.SetDialTLS(func(ctx context.Context, network, addr string) (net.Conn, error) {
-			conn, err := net.Dial(network, addr)
-			if err != nil {
-				return nil, err
+		wg.Add(1)
+		go func(ci int, bc bcase) {
+			defer wg.Done()
+			var reads int64
+			to := 8 * time.Second
+			if bc.bound < 0 {
+				to = 4 * time.Second // a flood no limit cuts off (PING): the client timeout is what ends the call
 			}
-			return &c07Conn{Conn: conn, reads: &reads}, nil
-		})
-		if !bc.read {
-			c.DisableAutoReadResponse()
-		}
-		path := fmt.Sprintf("/hb%d", ci)
-		peer.set(path, c07Script{data: bc.data, endless: bc.endless, cap: 64 << 20})
-		done := make(chan string, 1)
-		go func() {
-			ptxt, panicked := verifh.Safely(func() {
-				rp, err := c.R().Get(base + path)
-				if err != nil || rp == nil || rp.Err != nil {
-					done <- "error"
-					return
+			c := C().SetTimeout(to).EnableH2C().EnableForceHTTP2().SetLogger(nil).SetHTTP2MaxHeaderListSize(hl)
+			c.SetDialTLS(func(ctx context.Context, network, addr string) (net.Conn, error) {
+				conn, err := net.Dial(network, addr)
+				if err != nil {
+					return nil, err
 				}
-				// headers arrived; wait for the connection to die from the flood of unread data
-				time.Sleep(2 * time.Second)
-				_, rerr := io.Copy(io.Discard, rp.Body)
-				if rerr != nil {
-					done <- "error"
-				} else {
-					done <- "response"
-				}
+				return &c07Conn{Conn: conn, reads: &reads}, nil
 			})
-			if panicked {
-				done <- "panic: " + ptxt
+			if !bc.read {
+				c.DisableAutoReadResponse()
 			}
-		}()
-		var kind string
-		select {
-		case kind = <-done:
-		case <-time.After(30 * time.Second):
-			kind = "wedged"
-		}
-		got := atomic.LoadInt64(&reads)
+			path := fmt.Sprintf("/hb%d", ci)
+			peer.set(path, c07Script{data: bc.data, endless: bc.endless, cap: 64 << 20})
+			done := make(chan string, 1)
+			go func() {
+				ptxt, panicked := verifh.Safely(func() {
+					rp, err := c.R().Get(base + path)
+					if err != nil || rp == nil || rp.Err != nil {
+						done <- "error"
+						return
+					}
+					// headers arrived; wait for the connection to die from the flood of unread data
+					time.Sleep(2 * time.Second)
+					_, rerr := io.Copy(io.Discard, rp.Body)
+					if rerr != nil {
+						done <- "error"
+					} else {
+						done <- "response"
+					}
+				})
+				if panicked {
+					done <- "panic: " + ptxt
+				}
+			}()
+			var kind string
+			select {
+			case kind = <-done:
+			case <-time.After(30 * time.Second):
+				kind = "wedged"
+			}
+			results[ci] = bres{kind, atomic.LoadInt64(&reads)}
+			c.GetTransport().CloseIdleConnections()
+		}(ci, bc)
+	}
+	wg.Wait()
+	for ci, bc := range cases {
+		kind, got := results[ci].kind, results[ci].got
 		ok := kind == "error" && (bc.bound < 0 || got <= bc.bound)
 		human := fmt.Sprintf("%s -> %s after reading %d bytes (bound %d)", bc.name, kind, got, bc.bound)
 		s.Count(kind)
 		s.Observe("h2budget:"+bc.name, ok, "", true, human, human)
-		c.GetTransport().CloseIdleConnections()
 	}
 	s.Finish()
 }
